@@ -50,8 +50,9 @@ static bool MakeOffence(Source& s, int archive, K target, DynNode& repl, std::st
 {
 	mayLoad = false;
 	const bool text = archive == A_XML || archive == A_CSV;
-	std::vector<int> opts;   // 0 str, 1 arr, 2 obj, 3 null, 4 float 1.5, 5 out-of-range, 6 bin, 7 int, 8 array-of-bytes
-	if (IsInteger(target)) { opts = { 0, 3, 4, 5 }; if (archive != A_CSV) { opts.push_back(1); opts.push_back(2); } if (archive == A_MSGPACK) opts.push_back(6); }
+	std::vector<int> opts;   // 0 str, 1 arr, 2 obj, 3 null, 4 float 1.5, 5 out-of-range, 6 bin, 7 int, 8 array-of-bytes, 9 timestamp
+	if (IsInteger(target)) { opts = { 0, 3, 4, 5 }; if (archive != A_CSV) { opts.push_back(1); opts.push_back(2); } if (archive == A_MSGPACK) { opts.push_back(6); opts.push_back(9); opts.push_back(9); } if (archive == A_JSON) opts.push_back(9); }
+	else if (target == K::Ts) { opts = { 0, 3 }; if (archive != A_CSV) { opts.push_back(1); opts.push_back(2); } if (!text) opts.push_back(7); }
 	else if (target == K::Bool) { opts = { 0 }; if (archive != A_CSV) { opts.push_back(1); opts.push_back(2); } }
 	else if (target == K::F32 || target == K::F64) { opts = { 0, 3 }; if (archive != A_CSV) { opts.push_back(1); opts.push_back(2); } }
 	else if (IsString(target)) { if (archive == A_CSV) return false; opts = { 1, 2, 3 }; if (!text) opts.push_back(7); }
@@ -85,6 +86,12 @@ static bool MakeOffence(Source& s, int archive, K target, DynNode& repl, std::st
 		break;
 	case 6: repl = DynNode(K::Bin); repl.bin = { 1, 2, 3 }; name = "bin"; break;
 	case 7: repl = DynNode(K::I32); repl.i32 = 7; name = "int"; break;
+	case 9:
+		// before 1970 (MsgPack: timestamp 96 = ext 8) or after it (fixext)
+		repl = DynNode(K::Ts);
+		repl.tp = std::chrono::system_clock::time_point(std::chrono::seconds(s.chance(sim::L_FAULT, 2, 3) ? -473385600ll - static_cast<int64_t>(s.draw(sim::L_FAULT, 1000)) : 1700000000ll));
+		name = "timestamp";
+		break;
 	default:
 		// the library documents "binary first, then array" for byte containers: an array of small integers may load or be skipped
 		repl = DynNode(K::Arr);
@@ -134,10 +141,88 @@ static void Compare(const DynNode& b, const DynNode& f, const DynNode& marker, P
 	}
 }
 
+// Container leg: an array of numbers with offending elements loaded into a std::vector (the library's own container loader with
+// its estimated-size pre-sizing), arrays longer than the estimate included; reference = position-wise expectation.
+static Outcome ContainerLeg(RunCtx& ctx, int archive)
+{
+	Source& s = ctx.src;
+	ArchiveOps& ops = GetOps(archive);
+	const std::string an = ArchiveName(archive);
+	SerializationOptions o;
+	o.mismatchedTypesPolicy = BitSerializer::MismatchedTypesPolicy::Skip;
+	o.overflowNumberPolicy = BitSerializer::OverflowNumberPolicy::Skip;
+	o.streamOptions.writeBom = false;
+	static const uint32_t sizes[] = { 1, 2, 5, 17, 40, 1023, 1024, 1025, 1030, 1100, 2100 };
+	const uint32_t n = s.pick(sim::L_DOC, sizes);
+	DynNode doc(K::Arr);
+	std::vector<int32_t> expected(n);
+	for (uint32_t i = 0; i < n; ++i) { DynNode e(K::I32); e.i32 = static_cast<int32_t>(i * 7 + 1); expected[i] = e.i32; doc.items.push_back(e); }
+	const uint32_t nOff = 1 + s.draw(sim::L_FAULT, 3);
+	std::string what;
+	for (uint32_t k = 0; k < nOff; ++k)
+	{
+		// offences near the end are the interesting ones (behind the estimated size)
+		const uint32_t idx = s.chance(sim::L_FAULT, 1, 2) ? n - 1 - s.draw(sim::L_FAULT, std::min<uint32_t>(n, 80)) : s.draw(sim::L_FAULT, n);
+		const uint32_t kind = s.draw(sim::L_FAULT, 4);
+		DynNode repl;
+		if (kind == 0) { repl = DynNode(K::Str); repl.s = "x!"; }
+		else if (kind == 1) repl = DynNode(K::Null);
+		else if (kind == 2) { repl = DynNode(K::F64); repl.f64 = 1.5; }
+		else { repl = DynNode(K::I64); repl.i64 = 4294967296ll + idx; }
+		doc.items[idx] = repl;
+		expected[idx] = 0;   // a fresh element that is not loaded stays default
+		what += "[" + std::to_string(idx) + "]<-" + KName(repl.kind) + " ";
+	}
+	Outcome out;
+	out.cfgKey = an + "|container|" + std::to_string(n);
+	ctx.note("container leg: archive=" + an + " array of " + std::to_string(n) + " ints, offences: " + what);
+	ctx.count("leg.container");
+	std::string bytes;
+	CallResult sv = SaveDynWith(ops, doc, bytes, o, OutCfg{});
+	if (!sv.ok) return out;
+	const uint32_t prior = s.pick(sim::L_PROG, sizes) % 1200;
+	const uint32_t nEntries = 1 + s.draw(sim::L_IO, 2);
+	for (uint32_t j = 0; j < nEntries; ++j)
+	{
+		InCfg c;
+		if (j > 0) c = DrawStreamCfg(s, sim::L_IO);
+		std::vector<int32_t> target(j == 0 ? 0 : prior, 0x55555555);
+		ApplyKnobs(c);
+		CallResult r;
+		const uint64_t seekFailBefore = sim::ev_kind_count(sim::EV_R_SEEK_FAIL);
+		sim::steps_begin(3000ull * (bytes.size() + 4096));
+		if (!c.stream) r = Guarded([&] { ops.LoadIntVector(target, o, IoIn{ &bytes, nullptr }); });
+		else
+		{
+			sim::SimIStreamBuf sb(bytes, c.seekable, c.delivery);
+			std::istream is(&sb);
+			r = Guarded([&] { ops.LoadIntVector(target, o, IoIn{ nullptr, &is }); });
+		}
+		sim::steps_end();
+		ResetKnobs();
+		const std::string tags = "archive=" + an + " leg=container entry=" + (c.stream ? (c.seekable ? "stream:file" : "stream:pipe") : "mem");
+		ctx.note("  load via " + c.str() + " into a vector of " + std::to_string(target.size()) + " -> " + r.cat + " " + r.what);
+		if (!r.isStd) return Violation("WRONG_EXCEPTION", tags, "non-std exception");
+		// a non-seekable source cannot serve a skip that needs a seek beyond its window (stated relaxation)
+		if (!r.ok && c.stream && !c.seekable && sim::ev_kind_count(sim::EV_R_SEEK_FAIL) != seekFailBefore) { ctx.count("pipe_seek_relaxed"); continue; }
+		if (!r.ok) return Violation("WRONG_EXCEPTION", tags + " what=threw exc=" + r.cat, "with both Skip policies the load threw: " + r.what + " [" + what + "]");
+		out.nontrivial = true;
+		if (target.size() != expected.size())
+			return Violation("WRONG_VALUE", tags + " what=neighbour_count", "vector has " + std::to_string(target.size()) + " elements, the array has " + std::to_string(expected.size()) + " [" + what + "]");
+		for (size_t i = 0; i < expected.size(); ++i)
+		{
+			if (target[i] != expected[i])
+				return Violation("WRONG_VALUE", tags + " what=neighbour_value", "element [" + std::to_string(i) + "] is " + std::to_string(target[i]) + ", expected " + std::to_string(expected[i]) + " [" + what + "]");
+		}
+	}
+	return out;
+}
+
 Outcome RunC05(RunCtx& ctx)
 {
 	Source& s = ctx.src;
 	const int archive = static_cast<int>(s.draw(sim::L_CFG, A_COUNT));
+	if (archive != A_CSV && s.chance(sim::L_CFG, 1, 8)) return ContainerLeg(ctx, archive);
 	ArchiveOps& ops = GetOps(archive);
 	const std::string an = ArchiveName(archive);
 	GenCfg g;
